@@ -143,10 +143,15 @@ def documented_newmark(ctx):
     return out, doc
 
 
+
+
 # ---------------------------------------------------------------------------
-# evaluation of the solver source on a small symbolic system (verifier/c17_interp.py): 2 dof, NT time steps, NZ outputs per nonlinear
-# function.  One member of the property's quantifier domain, with symbolic entries: an obligation that fails here fails for the property.
-N, NT, NZ = 2, 5, 2
+# evaluation of the solver source on a small symbolic system (verifier/c17_interp.py): 2 dof (+1 rf mode), NT time steps, NZ outputs per
+# nonlinear function.  One member of the property's quantifier domain, with symbolic entries: an obligation that fails here fails for the
+# property.  Everything is driven through the PUBLIC entry points - SolveNewmark(m, b, k, h, rf), def_nonlin(dct), tsolve(force, d0, v0) - and
+# decided on what tsolve returns (sol.d, sol.v, sol.a, sol.z) and on what the user's nonlinear functions are called with: how the class
+# splits the work between private methods, and what it keeps in private attributes, does not enter.
+N, NT, NZ = 2, 4, 2
 H = F.sym("h")
 UNC_F, CPL = True, False
 
@@ -159,16 +164,34 @@ def mat(name, r=N, c=N):
     return I.NDArr.syms(name, (r, c))
 
 
+def _isdiag(it, a, k):
+    """pyyeti.ytools.isdiag on a symbolic matrix: diagonal iff every off-diagonal entry is the constant zero"""
+    m = a[0]
+    if not isinstance(m, I.NDArr) or m.ndim != 2 or m.shape[0] != m.shape[1]:
+        return False
+    return all(I.R(m.item(i, j)).is_zero() for i in range(m.shape[0]) for j in range(m.shape[1]) if i != j)
+
+
+def _interp(ctx, on_opaque=None, stubs=None):
+    """an interpreter with the two facts every rule assumes: the time step is not zero, and ytools.isdiag (another module's routine) says
+    what its name says"""
+    st = {"pyyeti.ytools.isdiag": _isdiag, "isdiag": _isdiag}
+    st.update(stubs or {})
+    it = I.Interp(ctx, stubs=st, on_opaque=on_opaque)
+    it.nonzero = {"h"}
+    return it
+
+
 def _guard(ctx, tag, where, thunk, partial=False):
     """run an evaluation; a Python exception of the analysed code on a valid configuration is a violation, a construct outside the
-    interpreter's subset an analysis error.  With `partial`, an evaluation that outgrows the formula budget returns ("partial", reason):
-    the caller decides on what had been stored until then (formulas explode only when an operation of the recurrence is not the
-    documented one, so the first stored step normally already contradicts the documentation)"""
+    interpreter's subset an analysis error.  With `partial`, an evaluation that outgrows the formula budget returns ("toolarge", reason):
+    the caller repeats it on a shorter history (formulas explode only when an operation of the recurrence is not the documented one, so
+    the first steps already contradict the documentation)"""
     try:
         return True, thunk()
     except I.TooLarge as e:
         if partial:
-            return "partial", str(e)
+            return "toolarge", str(e)
         ctx.error(f"{tag}: evaluation", where, str(e))
         return False, None
     except I.PyRaise as e:
@@ -190,9 +213,19 @@ def _show(x, n=300):
     return s if len(s) <= n else s[:n] + "..."
 
 
+def _subs_arr(a, mp):
+    if not isinstance(a, I.NDArr):
+        return I.fast_subs(a, mp)
+    return I.NDArr.new(a.shape, [I.fast_subs(e, mp) for e in a.flat()])
+
+
+def _ivec(*idx):
+    return I.NDArr.new((len(idx),), list(idx))
+
+
 class NLTerms:
-    """two nonlinear force terms {key: (function, transform, optional arguments)}; the functions are opaque: every call is recorded with a
-    snapshot of the displacement array it sees and returns the symbols z<k>_<j>"""
+    """two nonlinear force terms as the user hands them to def_nonlin: {key: (function, transform[, optional arguments])}; the functions are
+    opaque: every call is recorded with a snapshot of the displacement array it sees and returns the symbols z<k>_<j>"""
 
     def __init__(self):
         self.funcs = [I.Opaque("nl0", inert=True), I.Opaque("nl1", inert=True)]
@@ -202,8 +235,9 @@ class NLTerms:
         self.kwargs = [{}, {"opt": self.optargs}]
         self.calls = []      # dict(k, j, args, kwargs, snap)
 
-    def nl_dct(self):
-        return {key: (f, T, dict(kw)) for key, f, T, kw in zip(self.keys, self.funcs, self.T, self.kwargs)}
+    def spec(self):
+        """the first term is given as a 2-tuple (no optional arguments), the second as a 3-tuple"""
+        return {self.keys[0]: (self.funcs[0], self.T[0].copy()), self.keys[1]: (self.funcs[1], self.T[1].copy(), dict(self.kwargs[1]))}
 
     def z(self, k, j):
         return vec(f"z{k}_{j}", NZ)
@@ -223,103 +257,411 @@ class NLTerms:
             return vec(f"zbad{len(self.calls)}", NZ)
         return self.z(k, j)
 
-    def force(self, j):
-        """N_j = sum_k T_k z_k(d, j, h)  (the transforms are already multiplied by inv(A))"""
-        tot = None
-        for k in range(2):
-            t = self.T[k] @ self.z(k, j)
-            tot = t if tot is None else tot + t
-        return tot
-
     def call_ok(self, c, h=H):
         """documented call convention func(d, j, h, **optargs)"""
         return len(c["args"]) == 3 and c["snap"] is not None and I.s_equal(c["args"][2], h) and \
             set(c["kwargs"]) == set(self.kwargs[c["k"]]) and all(c["kwargs"][x] is self.kwargs[c["k"]][x] for x in c["kwargs"])
 
 
-def _nm_self(it, unc, terms=None, **extra):
-    cls = it.cls(NM, "SolveNewmark")
-    # the documented members of an instance without residual-flexibility modes (index partitions are slices: `slices` is True)
-    me = I.Obj(cls, "self", n=N, ksize=N, rfsize=0, nonrfsz=N, elsize=N, rbsize=0, nonrf=slice(None), kdof=slice(None), rf=slice(0, 0),
-               el=slice(None), rb=slice(0, 0), _el=slice(None), _rb=slice(0, 0), krf=None, ikrf=None,
-               unc=unc, h=H, pc=True, systype=I.FLOAT, slices=True, pre_eig=False, nonlin_terms=0, cdforces=False)
-    if unc:
-        me.attrs.update(m=vec("M"), k=vec("K"), b=vec("B"), Ad=vec("Ad"), A1=vec("A1"), A0=vec("A0"))
-    else:
-        me.attrs.update(m=mat("M"), k=mat("K"), b=mat("B"), Ad=I.LU(inv=mat("iA")), A1=mat("A1"), A0=mat("A0"))
-    if terms is not None:
-        me.attrs.update(nonlin_terms=2, nl_dct=terms.nl_dct())
-    else:
-        me.absent.update({"nl_dct", "z"})        # only def_nonlin / the nonlinear start-up create them
-    me.attrs.update(extra)
-    return me
-
-
-def _mul(unc):
-    return (lambda a, x: a * x) if unc else (lambda a, x: a @ x)
-
-
-def _inv_a(me, unc):
-    if unc:
-        return lambda x: x / (me.attrs["Ad"] if x.ndim == 1 else me.attrs["Ad"][:, None])
-    return lambda x: me.attrs["Ad"].inv() @ x
-
-
 def _cfg(unc, nonlin):
     return f"{'uncoupled' if unc else 'coupled'}, {'nonlinear' if nonlin else 'linear'}"
 
 
-# ---------------------------------------------------------------------------
 def _doc_entry(formula, mm, bb, kk):
     return formula.subs({"M": mm, "B": bb, "K": kk})
 
 
-def r2_code_equals_documentation(ctx):
-    docs, doc = documented_newmark(ctx)
-    fn = ctx.src.func(NM, "SolveNewmark._newmark_precalcs")
-    # the documented A, A_1, A_0 are linear in (M, B, K): they can be taken entry by entry for matrices
+# ---------------------------------------------------------------------------
+def _parametrise(docs):
+    """The documented (A, A_1, A_0) are linear in (M, B, K) with coefficients in Q(h); for h != 0 the map is a bijection, so the system can be
+    named by its A, A_1, A_0 instead of its M, B, K without leaving out any system.  The code then divides by the *symbols* of A (when it
+    forms the documented A) instead of by a three-term polynomial, which keeps every formula of a several-step history small.
+    Returns f(a, a1, a0, one, m_none) -> (M, B, K) as read off the docstring's formulas."""
+    t = F.sym("t")
+    rows = []
     for key in ("A", "A_1", "A_0"):
-        t = F.sym("t")
-        lin = docs[key].subs({"M": t * M_, "B": t * B_, "K": t * K_}).equals(t * docs[key])
-        if not lin:
+        if not docs[key].subs({"M": t * M_, "B": t * B_, "K": t * K_}).equals(t * docs[key]):
             raise Unsupported(f"documented {key} is not linear in M, B, K")
+        rows.append([docs[key].subs({"M": int(c == "M"), "B": int(c == "B"), "K": int(c == "K")}) for c in "MBK"])
+    C = I.NDArr.new((3, 3), [e for r in rows for e in r])
+    try:
+        Ci = I.inverse(C)
+        C2i = I.inverse(I.NDArr.new((2, 2), [rows[0][1], rows[0][2], rows[2][1], rows[2][2]]))
+    except I.PyRaise:
+        raise Unsupported("the documented A, A_1, A_0 do not determine M, B, K")
+
+    def f(a, a1, a0, one, m_none):
+        if not m_none:
+            return tuple(a * Ci.item(r, 0) + a1 * Ci.item(r, 1) + a0 * Ci.item(r, 2) for r in range(3))
+        ra, r0 = a - one * rows[0][0], a0 - one * rows[2][0]            # mass = identity: B, K follow from A and A_0
+        return (None,) + tuple(ra * C2i.item(r, 0) + r0 * C2i.item(r, 1) for r in range(2))
+    return f
+
+
+class NewmarkRun:
+    """one configuration of SolveNewmark run through its public interface, and the documented recurrence for the same inputs"""
+
+    def __init__(self, ctx, docs, unc, nonlin=False, ic=True, rf=None, m_none=False, diag2d=False, nt=NT):
+        self.ctx, self.docs, self.unc, self.nonlin, self.ic, self.rf, self.m_none, self.diag2d, self.nt = ctx, docs, unc, nonlin, ic, rf, m_none, diag2d, nt
+        self.reduced = False
+        how = {None: "", "trailing": ", one trailing rf mode (slice partitions)", "interleaved": ", one rf mode between the others (index-vector partitions)",
+               "leading": ", one leading rf mode (slice partitions that do not start at 0)"}[rf]
+        ictxt = {True: "", False: ", no initial conditions given", "v0": ", only v0 given"}[ic]
+        self.tag = f"{_cfg(unc, nonlin)}{ictxt}{how}{', mass None' if m_none else ''}{', diagonal matrices given as 2-D arrays' if diag2d else ''}"
+
+    # ---- the system
+    def run(self):
+        unc, rf, nt = self.unc, self.rf, self.nt
+        shape = (N,) if unc else (N, N)
+        a, a1, a0 = (I.NDArr.syms(x, shape) for x in ("a", "a1", "a0"))
+        one = I.NDArr.full(shape, F.const(1)) if unc else I._np_eye(None, [N], {})
+        M, B, K = _parametrise(self.docs)(a, a1, a0, one, self.m_none)
+        self.M, self.B, self.K = M, B, K
+        Md = one if self.m_none else M
+        # the documented matrices, read from the docstring's LaTeX and taken entry by entry (they are linear in M, B, K)
+        self.A, self.A1, self.A0 = (I.NDArr.new(shape, [_doc_entry(self.docs[key], x, y, z) for x, y, z in zip(Md.flat(), B.flat(), K.flat())])
+                                    for key in ("A", "A_1", "A_0"))
+        self.terms = NLTerms() if self.nonlin else None
+        self.it = it = _interp(self.ctx, on_opaque=self.terms.hook if self.terms else None)
+        if not unc:
+            # inv(A) is kept as a matrix of symbols iA (relation iA A = I used only when a comparison needs it: see eq())
+            self.iA = mat("iA")
+            it.named_inv.append((self.A, self.iA))
+        self.ntot = ntot = N + (1 if rf else 0)
+        self.K_, self.RF_ = {None: ([0, 1], []), "trailing": ([0, 1], [2]), "interleaved": ([0, 2], [1]), "leading": ([1, 2], [0])}[rf]
+        self.krf = F.sym("krf")
+        m_in, b_in, k_in = (self._embed(x, nm) for x, nm in ((M, "m"), (B, "b"), (K, "k")))
+        self.f = mat("f", ntot, nt)
+        self.d0 = vec("d0", ntot) if self.ic is True else None
+        self.v0 = vec("v0", ntot) if self.ic else None
+        cp = lambda x: None if x is None else x.copy()
+        kw = {"rf": list(self.RF_)} if rf else {}
+        self.obj = it.instantiate(it.cls(NM, "SolveNewmark"), cp(m_in), cp(b_in), cp(k_in), H, **kw)
+        if self.nonlin:
+            it.call_method(self.obj, "def_nonlin", self.terms.spec())
+            self.n_def_calls = len(self.terms.calls)
+            self.nonlin_terms = self.obj.attrs.get("nonlin_terms")
+        self.sol = it.call_method(self.obj, "tsolve", self.f.copy(), cp(self.d0), cp(self.v0))
+        return self
+
+    def _embed(self, blk, name):
+        """the non-rf block placed in the full-size input (rf equations are uncoupled from the others: modal space)"""
+        if blk is None:
+            return None
+        if self.rf:
+            n = self.ntot
+            rfsym = self.krf if name == "k" else F.sym(name + "rf")
+            if self.unc:
+                ents = [None] * n
+                for p_, e in zip(self.K_, blk.flat()):
+                    ents[p_] = e
+                ents[self.RF_[0]] = rfsym
+                blk = I.NDArr.new((n,), ents)
+            else:
+                ents = [[F.const(0)] * n for _ in range(n)]
+                for i, p_ in enumerate(self.K_):
+                    for j, q_ in enumerate(self.K_):
+                        ents[p_][q_] = blk.item(i, j)
+                ents[self.RF_[0]][self.RF_[0]] = rfsym
+                blk = I.NDArr.new((n, n), [e for r in ents for e in r])
+        if self.diag2d and self.unc:
+            blk = I._np_diag(None, [blk], {})
+        return blk
+
+    # ---- the documented side
+    def mul(self, X, y):
+        return X * y if self.unc else X @ y
+
+    def invA(self, x):
+        if self.unc:
+            return x / (self.A if x.ndim == 1 else self.A[:, None])
+        return self.iA @ x
+
+    def Nf(self, j):
+        """N_j = sum_k inv(A) T_k z_k(d, j, h)"""
+        if not self.nonlin:
+            return 0
+        tot = None
+        for k in range(2):
+            t = self.invA(self.terms.T[k] @ self.terms.z(k, j))
+            tot = t if tot is None else tot + t
+        return tot
+
+    def prepare(self):
+        """shapes of what tsolve returned, and the documented start-up quantities"""
+        sol = self.sol
+        if not isinstance(sol, I.Obj):
+            return f"tsolve returned {_show(sol)}"
+        self.d, self.v, self.a = (sol.attrs.get(x) for x in "dva")
+        for nm, x in (("d", self.d), ("v", self.v), ("a", self.a)):
+            if not isinstance(x, I.NDArr) or x.shape != (self.ntot, self.nt):
+                return f"sol.{nm} is {_show(x)}: one row per equation and one column per time step expected"
+        zero = I.NDArr.full((N,), F.const(0))
+        self.u0 = self.d0[self.K_] if self.d0 is not None else zero
+        self.w0 = self.v0[self.K_] if self.v0 is not None else zero
+        du = self.docs.get("u_-1")      # the documented start-up displacement, read from the docstring: u_{-1} = u_0 - \dot{u}_0 h
+        if du is not None:
+            self.um1 = I.NDArr.new((N,), [du.subs({"u_0": x, "vu_0": y}) for x, y in zip(self.u0.flat(), self.w0.flat())])
+        else:
+            self.um1 = self.u0 - self.w0 * H
+        self.fk = self.f[self.K_]
+        self.F0 = self.mul(self.K, self.u0) + self.mul(self.B, self.w0)                 # F_0 := K u_0 + B v_0
+        self.Fm1 = self.mul(self.K, self.um1) + self.mul(self.B, self.w0)               # F_-1 = K u_-1 + B v_0
+        self.dk, self.vk, self.ak = self.d[self.K_], self.v[self.K_], self.a[self.K_]
+        self.u1 = self.step(1, self.u0, self.um1)
+        return None
+
+    def Fcol(self, j):
+        """force column j of the non-rf equations as the recurrence uses it (F_0 replaced, F_-1, linear extrapolation past the end)"""
+        if j == -1:
+            return self.Fm1
+        if j == 0:
+            return self.F0
+        if j == self.nt:
+            return 2 * self.Fcol(self.nt - 1) - self.Fcol(self.nt - 2)
+        return self.fk[:, j]
+
+    def step(self, j, prev, prev2):
+        """A u_j = (F_j + F_j-1 + F_j-2)/3 + N_j-1 + A_1 u_j-1 + A_0 u_j-2"""
+        return self.invA((self.Fcol(j) + self.Fcol(j - 1) + self.Fcol(j - 2)) / 3) + self.Nf(j - 1) + self.invA(self.mul(self.A1, prev)) + \
+            self.invA(self.mul(self.A0, prev2))
+
+    def De(self):
+        """the displacement of the extra step as the code used it for the last velocity: V_last = (De - u_nt-2)/(2h)"""
+        nt = self.nt
+        return self.vk[:, nt - 1] * (2 * H) + self.dk[:, nt - 2]
+
+    # ---- equality modulo iA A = I
+    def eq(self, x, y):
+        if _eq(x, y):
+            return True
+        if self.unc or not isinstance(x, I.NDArr) or not isinstance(y, I.NDArr) or x.shape != y.shape:
+            return False
+        # the two sides differ as polynomials in the entries of A and iA.  On the systems with diagonal A (iA = 1/A entry-wise) the relation
+        # holds by substitution: a difference there is a genuine difference.  Otherwise substitute the exact inverse.
+        mp = {}
+        for i in range(N):
+            for j in range(N):
+                mp[f"iA_{i}_{j}"] = (1 / I.R(self.A.item(i, i))) if i == j else F.const(0)
+                if i != j:
+                    mp[f"a_{i}_{j}"] = F.const(0)
+        if not _eq(_subs_arr(x, mp), _subs_arr(y, mp)):
+            return False
+        inv = I.inverse(self.A)
+        mp = {f"iA_{i}_{j}": inv.item(i, j) for i in range(N) for j in range(N)}
+        return _eq(_subs_arr(x, mp), _subs_arr(y, mp))
+
+    # ---- facts: name -> (holds, detail)
+    def facts(self):
+        why = self.prepare()
+        if why is not None:
+            return {"shape": (False, why)}
+        out = {"shape": (True, None)}
+        nt, t, K_ = self.nt, self.terms, self.K_
+        dk, vk, ak = self.dk, self.vk, self.ak
+        if self.nonlin:
+            c0 = [c for c in t.calls if c["j"] == 0]
+            ok = {c["k"] for c in c0} == {0, 1} and len(c0) == 2 and self.n_def_calls == 0 and all(
+                t.call_ok(c) and c["snap"].shape == (self.ntot, nt) and self.eq(c["snap"][K_, -1], self.um1) and self.eq(c["snap"][K_, 0], self.u0)
+                for c in c0)
+            out["nl0"] = (ok, None if ok else [(c["k"], c["j"], _show(c["snap"][:, -1] if c["snap"] is not None and c["snap"].ndim == 2 else c["snap"]))
+                                               for c in t.calls[:4]])
+            z = self.sol.attrs.get("z")
+            self.z = z
+            zok = isinstance(z, dict) and set(z) == set(t.keys) and all(isinstance(z[key], I.NDArr) and z[key].shape == (NZ, nt) for key in t.keys)
+            ok = zok and all(_eq(z[key][:, 0], t.z(k_, 0)) for k_, key in enumerate(t.keys))
+            out["z0"] = (ok, None if ok else _show(z))
+        ok = self.eq(dk[:, 1], self.u1) and self.eq(dk[:, 0], self.u0)
+        out["u1"] = (ok, None if ok else {"code": _show(dk[:, 1]), "documented": _show(self.u1)})
+        want_a0 = (self.u1 - 2 * self.u0 + self.um1) / (H * H)
+        ok = self.eq(ak[:, 0], want_a0) and self.eq(vk[:, 0], self.w0)
+        out["a0"] = (ok, None if ok else _show(ak[:, 0]))
+        bad = None
+        for j in range(2, nt):
+            want = self.step(j, dk[:, j - 1], dk[:, j - 2])
+            if not self.eq(dk[:, j], want):
+                bad = {"step": j, "code": _show(dk[:, j]), "documented": _show(want)}
+                break
+        out["f0"] = (bad is None or bad["step"] != 2, bad)
+        out["rec"] = (bad is None, bad)
+        want = self.step(nt, dk[:, nt - 1], dk[:, nt - 2])
+        ok = self.eq(self.De(), want)
+        out["extra"] = (ok, None if ok else {"code": _show(self.De()), "documented": _show(want)})
+        h2, sqh = 2 * H, H * H
+        out["vel"] = (all(self.eq(vk[:, i], (dk[:, i + 1] - dk[:, i - 1]) / h2) for i in range(1, nt - 1)) and self.eq(vk[:, 0], self.w0), None)
+        out["acc"] = (all(self.eq(ak[:, i], (dk[:, i + 1] - 2 * dk[:, i] + dk[:, i - 1]) / sqh) for i in range(1, nt - 1)), None)
+        out["last"] = (self.eq(ak[:, nt - 1], (self.De() - 2 * dk[:, nt - 1] + dk[:, nt - 2]) / sqh), None)
+        if self.rf:
+            R_ = self.RF_
+            ok = all(self.eq(self.d[R_, j] * self.krf, self.f[R_, j]) for j in range(nt))
+            out["rf"] = (ok, None if ok else _show(self.d[R_]))
+        if self.nonlin:
+            later = [c for c in t.calls if c["j"] != 0]
+            want = {(k_, j) for k_ in range(2) for j in range(1, nt)}
+            got = [(c["k"], c["j"]) for c in later]
+            ok = set(got) == want and len(got) == len(want) and all(
+                t.call_ok(c) and c["snap"].ndim == 2 and c["snap"].shape[1] == nt and c["snap"].shape[0] in (N, self.ntot) and
+                all(self.eq(c["snap"][(K_ if c["snap"].shape[0] == self.ntot else slice(None)), i], dk[:, i]) for i in range(c["j"] + 1)) for c in later)
+            out["nlcalls"] = (ok, None if ok else got)
+            ok = zok and all(_eq(z[key][:, j], t.z(k_, j)) for k_, key in enumerate(t.keys) for j in range(nt))
+            out["zrec"] = (ok, None if ok else _show(z))
+            ok = self.nonlin_terms == 2
+            out["nterms"] = (ok, None if ok else _show(self.nonlin_terms))
+        return out
+
+
+_NM_CONFIGS = [
+    # key                     unc    nonlin  ic     rf             m_none diag2d
+    ("unc-lin", dict(unc=UNC_F, nonlin=False)),
+    ("unc-nl", dict(unc=UNC_F, nonlin=True)),
+    ("cpl-lin", dict(unc=CPL, nonlin=False)),
+    ("cpl-nl", dict(unc=CPL, nonlin=True)),
+    ("unc-lin-noic", dict(unc=UNC_F, ic=False)),
+    ("cpl-lin-v0", dict(unc=CPL, ic="v0")),
+    ("unc-lin-m0", dict(unc=UNC_F, m_none=True, nt=3)),         # identity mass: the constant 1/h^2 terms make longer histories expensive
+    ("cpl-lin-m0", dict(unc=CPL, m_none=True, nt=3)),
+    ("unc-lin-rft", dict(unc=UNC_F, rf="trailing")),
+    ("cpl-lin-rft", dict(unc=CPL, rf="trailing")),
+    ("unc-nl-rfi", dict(unc=UNC_F, nonlin=True, rf="interleaved")),
+    ("cpl-lin-rfi", dict(unc=CPL, rf="interleaved")),
+    ("unc-lin-2d", dict(unc=UNC_F, diag2d=True)),
+    # index spaces (R6): the rf mode first, so that no partition starts at row 0
+    ("unc-nl-rfl", dict(unc=UNC_F, nonlin=True, rf="leading")),
+    ("cpl-lin-rfl", dict(unc=CPL, rf="leading", nt=3)),
+]
+_R6_KEYS = ("unc-nl-rfl", "cpl-lin-rfl")
+
+
+def _newmark_runs(ctx):
+    """every configuration evaluated once, shared by R1, R2, R3 (a configuration that cannot be evaluated is reported under each rule)"""
+    where = ctx.src.func(NM, "SolveNewmark.tsolve")
+    cache = getattr(ctx, "_c17_runs", None)
+    if cache is not None:
+        runs, problems = cache
+        for o in problems:
+            (ctx.fail if o.status == "fail" else ctx.error)(o.instance, o.where, o.detail)
+        return where, runs
+    docs, _ = documented_newmark(ctx)
+    runs = {}
+    n0 = len(ctx.obls)
+    for key, cfg in _NM_CONFIGS:
+        r = NewmarkRun(ctx, docs, **cfg)
+        tag = f"SolveNewmark ({r.tag})"
+        facts = None
+        for attempt in (0, 1):
+            ok, why = _guard(ctx, tag, where, lambda: r.run().facts(), partial=attempt == 0)
+            if ok == "toolarge":
+                # the formulas outgrew the budget: decide on the shortest history that has a start-up step, one regular step and the extra step
+                r = NewmarkRun(ctx, docs, nt=3, **cfg)
+                r.reduced = True
+                continue
+            if ok:
+                facts = why
+            break
+        r.facts_ = facts
+        runs[key] = r if facts is not None else None
+        if facts is not None and not facts["shape"][0]:
+            ctx.fail(f"{tag}: tsolve returns d, v, a with one row per equation and one column per time step", where, facts["shape"][1])
+            runs[key] = None
+    ctx._c17_runs = (runs, list(ctx.obls[n0:]))
+    return where, runs
+
+
+def _emit(ctx, r, name, text, where):
+    ok, detail = r.facts_[name]
+    ctx.check(ok, f"SolveNewmark ({r.tag}): {text}" + (" [decided on a 3-step history: longer ones outgrow the formula budget]" if r.reduced else ""),
+              where, None if ok else detail)
+
+
+def _to_diag_map():
+    """substitution that turns the coupled system into the uncoupled one of the same name (diagonal A, A_1, A_0, hence diagonal M, B, K)"""
+    mp = {}
+    for i in range(N):
+        for j in range(N):
+            for nm in ("a", "a1", "a0"):
+                mp[f"{nm}_{i}_{j}"] = F.sym(f"{nm}_{i}") if i == j else F.const(0)
+            mp[f"iA_{i}_{j}"] = 1 / F.sym(f"a_{i}") if i == j else F.const(0)
+    return mp
+
+
+def r1_four_branch_agreement(ctx):
+    where, runs = _newmark_runs(ctx)
+    for key, r in runs.items():
+        if r is None or key in _R6_KEYS:
+            continue
+        nl = "+ N_j-1 " if r.nonlin else ""
+        _emit(ctx, r, "rec", f"A u_j = (F_j + F_j-1 + F_j-2)/3 {nl}+ A_1 u_j-1 + A_0 u_j-2 for every step j >= 2 with the documented A, A_1, A_0 "
+                             "(the documented recurrence, decided on the history tsolve returns)", where)
+        _emit(ctx, r, "extra", "the extra step behind the last velocity is the recurrence with the force linearly extrapolated "
+                               f"(F_nt = 2 F_nt-1 - F_nt-2){' and the nonlinear term of the last step' if r.nonlin else ''}", where)
+    base = runs.get("unc-lin")
+    for key in ("unc-nl", "cpl-lin", "cpl-nl"):
+        r = runs.get(key)
+        if r is None or base is None or r.reduced != base.reduced:
+            continue
+        mp = {} if r.unc else _to_diag_map()
+        if r.nonlin:
+            for k_ in range(2):
+                for j in range(r.nt + 1):
+                    for q in range(NZ):
+                        mp[f"z{k_}_{j}_{q}"] = F.const(0)
+        try:
+            same = _eq(_subs_arr(r.d, mp), base.d) and _eq(_subs_arr(r.De(), mp), base.De())
+        except Unsupported as e:
+            ctx.error(f"tsolve: comparison of the {_cfg(r.unc, r.nonlin)} arm with the uncoupled linear arm", where, str(e))
+            continue
+        ctx.check(same, f"tsolve: the {_cfg(r.unc, r.nonlin)} history is the uncoupled linear history when the matrices are diagonal and the "
+                        "nonlinear terms vanish (the four arms of the code agree)", where)
+
+
+def _members(ctx, docs):
+    """the members the constructor's docstring promises: nonlin_terms = 0, A1 / A0 = inv(A) A_1 / inv(A) A_0 (generic M, B, K: the LaTeX formulas
+    themselves, not the parametrisation of the history runs)"""
+    where = ctx.src.func(NM, "SolveNewmark.__init__")
     for unc in (UNC_F, CPL):
         for m_none in (False, True):
-            tag = f"_newmark_precalcs ({'diagonal' if unc else 'full'} matrices, m {'None' if m_none else 'given'})"
-            it = I.Interp(ctx)
+            tag = f"SolveNewmark(m, b, k, h) ({'diagonal' if unc else 'full'} matrices, m {'None' if m_none else 'given'})"
+            it = _interp(ctx)
             shape = (N,) if unc else (N, N)
             m, b, k = (I.NDArr.syms(x, shape) for x in "mbk")
-            if m_none:
-                mm = I.NDArr.full(shape, F.const(1)) if unc else I._np_eye(None, [N], {})
-            else:
-                mm = m
-            me = I.Obj(it.cls(NM, "SolveNewmark"), "self", h=H, m=None if m_none else m, b=b, k=k, unc=unc, ksize=N)
-            me.absent.update({"Ad", "A0", "A1"})         # this method creates them
-            ok, _ = _guard(ctx, tag, fn, lambda: it.call_method(me, "_newmark_precalcs"))
+            mm = (I.NDArr.full(shape, F.const(1)) if unc else I._np_eye(None, [N], {})) if m_none else m
+            ok, me = _guard(ctx, tag, where, lambda: it.instantiate(it.cls(NM, "SolveNewmark"), None if m_none else m.copy(), b.copy(), k.copy(), H))
             if not ok:
                 continue
             want = {key: I.NDArr.new(shape, [_doc_entry(docs[key], x, y, z) for x, y, z in zip(mm.flat(), b.flat(), k.flat())])
                     for key in ("A", "A_1", "A_0")}
             if unc and not m_none:
-                ok = me.attrs.get("nonlin_terms") == 0 and me.attrs.get("pc") is not None and it.truth(me.attrs.get("pc")) is True
-                ctx.check(ok, f"{tag}: a new solver has no nonlinear terms (nonlin_terms = 0) and is marked ready for time-domain allocation", fn)
+                ok = me.attrs.get("nonlin_terms") == 0
+                ctx.check(ok, f"{tag}: a new solver has no nonlinear terms (nonlin_terms = 0)", where)
             Ad = me.attrs.get("Ad")
             Amat = Ad.mat if isinstance(Ad, I.LU) else Ad
-            ok = isinstance(Amat, I.NDArr) and _eq(Amat, want["A"]) and (unc or isinstance(Ad, I.LU))
-            ctx.check(ok, f"{tag}: self.Ad is the documented A = {docs['A']}" + ("" if unc else " (LU factored)"), fn, None if ok else _show(Amat))
+            if isinstance(Amat, I.NDArr) and Amat.shape == shape:
+                ok = _eq(Amat, want["A"])
+                ctx.check(ok, f"{tag}: the member Ad holds the documented A = {docs['A']}" + ("" if unc else " (factored)"), where,
+                          None if ok else _show(Amat))
+            else:
+                # the docstring only promises 'a decomposed version of A': another representation is decided by the history (R1)
+                ctx.ok(f"{tag}: the member Ad is kept in a representation of its own; the documented A is decided on the history", where, nontrivial=False)
             for nm, key in (("A1", "A_1"), ("A0", "A_0")):
                 v = me.attrs.get(nm)
-                if not isinstance(v, I.NDArr) or not isinstance(Amat, I.NDArr):
-                    ctx.fail(f"{tag}: self.{nm} is inv(A) times the documented {key} = {docs[key]}", fn, _show(v))
+                if not isinstance(v, I.NDArr) or v.shape != shape:
+                    ctx.ok(f"{tag}: the member {nm} is kept in a representation of its own; the documented {key} is decided on the history", where,
+                           nontrivial=False)
                     continue
                 # A x = A_k decides x = inv(A) A_k without inverting on the checker's side; the documented A is used, not the code's
                 L, sc = I.clear_denominators(want["A"].flat())
                 As = I.NDArr.new(shape, sc)
                 lhs = As * v if unc else As @ v
                 ok = _eq(lhs, want[key] * L)
-                ctx.check(ok, f"{tag}: self.{nm} is inv(A) times the documented {key} = {docs[key]}", fn, None if ok else _show(v))
-    # the comment block inside _newmark_precalcs is a third sibling (documentation only: not behaviour, hence nontrivial=False)
-    src = ctx.src.seg(fn)
+                ctx.check(ok, f"{tag}: the member {nm} is inv(A) times the documented {key} = {docs[key]}", where, None if ok else _show(v))
+
+
+def r2_code_equals_documentation(ctx):
+    docs, doc = documented_newmark(ctx)
+    _members(ctx, docs)
+    # the comment block next to the formulas is a third sibling (documentation only: not behaviour, hence nontrivial=False)
+    cls = ctx.src.cls(NM, "SolveNewmark")
+    src = ctx.src.seg(cls)
     com = {}
     for nm in ("A", "A1", "A0"):
         m = re.search(r"#\s*" + nm + r"\s*=\s*(.+)", src)
@@ -336,414 +678,45 @@ def r2_code_equals_documentation(ctx):
             ctx.note(f"comment formula for {nm} not parsed")
             continue
         ok = v.equals(docs[key])
-        ctx.check(ok, f"_newmark_precalcs: the comment's formula for {nm} agrees with the class documentation", fn, None if ok else repr(v), nontrivial=False)
-    _r2_startup(ctx, docs)
-
-
-def _r2_startup(ctx, docs):
-    """start-up step of _init_dva: u_-1 = u_0 - v_0 h ; F_-1 = K u_-1 + B v_0 ; F_0 := K u_0 + B v_0 ; A u_1 = (F_1 + F_0 + F_-1)/3 + N_0 + A_1 u_0 + A_0 u_-1"""
-    ini = ctx.src.func(NM, "SolveNewmark._init_dva")
-    du = docs.get("u_-1")      # the documented start-up displacement, read from the docstring: u_{-1} = u_0 - \dot{u}_0 h
-    for unc in (UNC_F, CPL):
-        for nonlin in (False, True):
-            _startup_case(ctx, ini, du, unc, nonlin)
-    _startup_case(ctx, ini, du, UNC_F, False, ic=False)
-    _startup_case(ctx, ini, du, CPL, False, ic="v0")
-    for unc in (UNC_F, CPL):
-        _startup_case(ctx, ini, du, unc, False, rf="trailing")
-        _startup_case(ctx, ini, du, unc, False, rf="interleaved")
-
-
-def _ivec(*idx):
-    return I.NDArr.new((len(idx),), list(idx))
-
-
-def _startup_case(ctx, ini, du, unc, nonlin, ic=True, rf=None):
-    how = {None: "", "trailing": ", one trailing rf mode (slice partitions)", "interleaved": ", one interleaved rf mode (index-vector partitions)"}[rf]
-    ictxt = {True: "", False: ", no initial conditions given", "v0": ", only v0 given"}[ic]
-    tag = f"SolveNewmark._init_dva ({_cfg(unc, nonlin)}{ictxt}{how})"
-    terms = NLTerms() if nonlin else None
-    it = I.Interp(ctx, on_opaque=terms.hook if terms else None)
-    me = _nm_self(it, unc, terms)
-    me.absent.add("z")                                   # a fresh instance: the nonlinear start-up creates it
-    ntot = N + 1 if rf else N
-    K_, RF_ = slice(0, N), slice(N, ntot)
-    if rf:
-        ikrf = mat("ikrf", 1, 1)
-        if rf == "interleaved":
-            K_, RF_ = _ivec(0, 2), _ivec(1)
-            me.attrs.update(slices=False)
-        me.attrs.update(n=ntot, rfsize=1, rf=RF_, nonrf=K_, kdof=K_, el=K_, ikrf=ikrf if unc else I.LU(inv=ikrf))
-    f = mat("f", ntot, NT)
-    d0f, v0f = (vec("d0", ntot) if ic is True else None), (vec("v0", ntot) if ic else None)
-    ok, res = _guard(ctx, tag, ini, lambda: it.call_method(me, "_init_dva", f, d0f, v0f))
-    if not ok:
-        return
-    if not (isinstance(res, tuple) and len(res) == 4 and all(isinstance(x, I.NDArr) for x in res)):
-        ctx.fail(f"{tag}: returns (d, v, a, force)", ini, _show(res))
-        return
-    d, v, a, frc = res
-    if d.shape != (ntot, NT) or v.shape != (ntot, NT) or a.shape != (ntot, NT):
-        ctx.fail(f"{tag}: d, v, a have one row per equation and one column per time step", ini, (d.shape, v.shape, a.shape))
-        return
-    zero = I.NDArr.full((N,), F.const(0))
-    d0, v0 = (d0f[K_] if d0f is not None else zero), (v0f[K_] if v0f is not None else zero)
-    fk = f[K_]
-    K, B, A1, A0 = (me.attrs[x] for x in ("k", "b", "A1", "A0"))
-    mul, inva = _mul(unc), _inv_a(me, unc)
-    if du is not None:
-        um1 = I.NDArr.new((N,), [du.subs({"u_0": x, "vu_0": y}) for x, y in zip(d0.flat(), v0.flat())])
-    else:
-        um1 = d0 - v0 * H
-    F0 = mul(K, d0) + mul(B, v0)
-    Fm1 = mul(K, um1) + mul(B, v0)
-    N0 = terms.force(0) if nonlin else 0
-    want_d1 = inva((fk[:, 1] + F0 + Fm1) / 3) + N0 + mul(A1, d0) + mul(A0, um1)
-    if nonlin:
-        c0 = [c for c in terms.calls if c["j"] == 0]
-        ok = {c["k"] for c in c0} == {0, 1} and len(terms.calls) == 2 and all(
-            terms.call_ok(c) and c["snap"].shape == (ntot, NT) and _eq(c["snap"][K_, -1], um1) and _eq(c["snap"][K_, 0], d0) for c in c0)
-        ctx.check(ok, f"{tag}: when the nonlinear functions are evaluated at j = 0 as func(d, 0, h, **optargs), column 0 of d is u_0 and the "
-                      "last column holds the documented u_-1 = u_0 - v_0 h (unconditionally: def_nonlin documents d[:, j-1] for j = 0)", ini,
-                  None if ok else [(c["k"], c["j"], _show(c["snap"][:, -1] if c["snap"] is not None and c["snap"].ndim == 2 else c["snap"])) for c in terms.calls])
-        z = me.attrs.get("z")
-        ok = isinstance(z, dict) and set(z) == set(terms.keys) and all(
-            isinstance(z[key], I.NDArr) and z[key].shape == (NZ, NT) and _eq(z[key][:, 0], terms.z(k_, 0)) for k_, key in enumerate(terms.keys))
-        ctx.check(ok, f"{tag}: self.z[key] is allocated with one column per time step and column 0 is the function output at j = 0", ini,
-                  None if ok else _show(z))
-    ok = _eq(d[K_, 1], want_d1) and _eq(d[K_, 0], d0)
-    ctx.check(ok, f"{tag}: the first step uses F_0 := K u_0 + B v_0, F_-1 = K u_-1 + B v_0, u_-1 = u_0 - v_0 h and the start-up nonlinear term N_0 "
-                  "in the documented recurrence", ini, None if ok else {"code": _show(d[K_, 1]), "documented": _show(want_d1)})
-    want_a0 = (want_d1 - 2 * d0 + um1) / (H * H)
-    ok = _eq(a[K_, 0], want_a0) and _eq(v[K_, 0], v0)
-    ctx.check(ok, f"{tag}: initial acceleration is the central difference (u_1 - 2 u_0 + u_-1)/h^2", ini, None if ok else _show(a[K_, 0]))
-    want_f = [inva(F0 / 3)] + [inva(fk[:, j] / 3) for j in range(1, NT)]
-    ok = frc.shape == (N, NT) and all(_eq(frc[:, j], want_f[j]) for j in range(NT))
-    ctx.check(ok, f"{tag}: the returned force is inv(A) F/3 of the non-rf equations with F_0 replaced (what the recurrence in tsolve adds directly)", ini,
-              None if ok else _show(frc))
-    if rf:
-        ok = all(_eq(d[RF_, j], ikrf @ f[RF_, j]) for j in range(NT))
-        ctx.check(ok, f"{tag}: the rf equations are solved statically, d_rf = inv(K_rf) F_rf at every step, initial conditions ignored", ini,
-                  None if ok else _show(d[RF_]))
-
-
-# ---------------------------------------------------------------------------
-class TsolveRun:
-    """SolveNewmark.tsolve evaluated after a start-up step that left symbols in the arrays (the contract of _init_dva checked by R2)"""
-
-    def __init__(self, ctx, unc, nonlin, index_partition=False):
-        self.unc, self.nonlin = unc, nonlin
-        self.terms = NLTerms() if nonlin else None
-        self.it = it = I.Interp(ctx, on_opaque=self.terms.hook if self.terms else None)
-        self.me = me = _nm_self(it, unc, self.terms)
-        if index_partition:       # partitions that could not be turned into slices: `d[kdof]` is a copy that has to be written back
-            me.attrs.update(slices=False, kdof=_ivec(*range(N)), nonrf=_ivec(*range(N)), el=_ivec(*range(N)))
-        self.u0, self.u1, self.v0, self.a0, self.um1 = vec("u0"), vec("u1"), vec("v0"), vec("a0"), vec("um1")
-        zero = F.const(0)
-        self.d, self.v, self.a = (I.NDArr.full((N, NT), zero, lbl) for lbl in "dva")
-        self.Fs = mat("F", N, NT)
-
-        def init_dva(it_, args, kwargs):
-            self.init_args = (list(args), dict(kwargs))
-            for col, val in ((0, self.u0), (1, self.u1)) + (((NT - 1, self.um1),) if nonlin else ()):
-                for r in range(N):
-                    self.d.st.data[self.d.ix[r * NT + col]] = val.flat()[r]
-            for r in range(N):
-                self.v.st.data[self.v.ix[r * NT]] = self.v0.flat()[r]
-                self.a.st.data[self.a.ix[r * NT]] = self.a0.flat()[r]
-            if nonlin:
-                zz = {}
-                for k_, key in enumerate(self.terms.keys):
-                    arr = I.NDArr.full((NZ, NT), zero)
-                    for r in range(NZ):
-                        arr.st.data[arr.ix[r * NT]] = self.terms.z(k_, 0).flat()[r]
-                    zz[key] = arr
-                me.attrs["z"] = zz
-            return self.d, self.v, self.a, self.Fs
-
-        def solution(it_, args, kwargs):
-            self.sol_args = args
-            return I.Obj(None, "sol", d=args[0], v=args[1], a=args[2])
-
-        me.overrides["_init_dva"] = init_dva
-        me.overrides["_solution"] = solution
-        self.sol = None
-        self.sol_args = None
-        self.partial = None       # reason when the evaluation was cut off by the formula budget
-
-    def run(self):
-        self.inputs = (mat("force", N, NT), vec("d0"), vec("v0"))
-        self.sol = self.it.call_method(self.me, "tsolve", *self.inputs)
-        return self
-
-    def init_args_ok(self):
-        """_init_dva(force, d0, v0) receives the force history and the initial conditions of tsolve, each in its place"""
-        if getattr(self, "init_args", None) is None:
-            return False
-        fn = self.it.method(self.me.cls, "_init_dva")
-        try:
-            env = self.it.bind(fn, [None] + self.init_args[0], self.init_args[1])
-        except I.PyRaise:
-            return False
-        f, d0, v0 = self.inputs
-        return isinstance(env.get("force"), I.NDArr) and _eq(env["force"], f) and env.get("d0") is d0 and env.get("v0") is v0
-
-    def N(self, j):
-        return self.terms.force(j) if self.nonlin else 0
-
-    def written(self, j):
-        """has tsolve stored every entry of displacement column j?"""
-        done = {i for _, i, _, _ in self.d.st.log}
-        return all(self.d.ix[r * NT + j] in done for r in range(N))
-
-    def De(self):
-        """the displacement of the extra step as the code used it for the last velocity: V_last = (De - u_nt-2)/(2h)"""
-        return self.v[:, NT - 1] * (2 * H) + self.d[:, NT - 2]
-
-
-def _tsolve_runs(ctx):
-    """the four evaluations of tsolve, shared by R1 and R3 (problems are reported under each rule that needs the runs)"""
-    fn = ctx.src.func(NM, "SolveNewmark.tsolve")
-    cache = getattr(ctx, "_c17_tsolve", None)
-    if cache is not None:
-        runs, problems = cache
-        for o in problems:
-            (ctx.fail if o.status == "fail" else ctx.error)(o.instance, o.where, o.detail)
-        return fn, runs
-    runs = {}
-    n0 = len(ctx.obls)
-    for unc, nonlin, ip in ((UNC_F, False, False), (UNC_F, True, False), (CPL, False, False), (CPL, True, False), (UNC_F, True, True)):
-        if True:
-            tag = f"tsolve ({_cfg(unc, nonlin)}{', index-vector partition' if ip else ''})"
-            r = TsolveRun(ctx, unc, nonlin, ip)
-            ok, why = _guard(ctx, tag, fn, r.run, partial=not ip)
-            if ok == "partial":
-                r.partial = why
-            elif ok:
-                ok = isinstance(r.sol, I.Obj) and r.sol_args is not None and len(r.sol_args) >= 3 and \
-                    all(x is y for x, y in zip(r.sol_args[:3], (r.d, r.v, r.a)))
-                if not ok:
-                    ctx.fail(f"{tag}: the solution is built from the arrays d, v, a of the start-up step", fn)
-            runs[(unc, nonlin) + (("index",) if ip else ())] = r if ok else None
-    ctx._c17_tsolve = (runs, list(ctx.obls[n0:]))
-    return fn, runs
-
-
-def _to_diag_names(name):
-    """substitution that turns the entries of a full coefficient matrix into those of a diagonal one"""
-    mp = {}
-    for i in range(N):
-        for j in range(N):
-            mp[f"{name}_{i}_{j}"] = F.sym(f"{name}_{i}") if i == j else F.const(0)
-    return mp
-
-
-def _subs_arr(a, mp):
-    return I.NDArr.new(a.shape, [I.R(e).subs(mp) for e in a.flat()])
-
-
-def r1_four_branch_agreement(ctx):
-    fn, runs = _tsolve_runs(ctx)
-    ri = runs.pop((UNC_F, True, "index"), None)
-    for (unc, nonlin), r in runs.items():
-        if r is None:
-            continue
-        tag = f"tsolve ({_cfg(unc, nonlin)})"
-        mul = _mul(unc)
-        A1, A0, Fs, d = r.me.attrs["A1"], r.me.attrs["A0"], r.Fs, r.d
-        if r.partial:
-            # the evaluation was cut off: decide on the steps that had been stored
-            bad = None
-            for j in range(2, NT):
-                if not r.written(j):
-                    break
-                want = Fs[:, j] + Fs[:, j - 1] + Fs[:, j - 2] + r.N(j - 1) + mul(A1, d[:, j - 1]) + mul(A0, d[:, j - 2])
-                if not _eq(d[:, j], want):
-                    bad = {"step": j, "code": _show(d[:, j]), "documented": _show(want)}
-                    break
-            if bad:
-                ctx.fail(f"{tag}: u_j = F_j + F_j-1 + F_j-2 {'+ N_j-1 ' if nonlin else ''}+ A1 u_j-1 + A0 u_j-2 for every step j >= 2 "
-                         "(forces already scaled by inv(A)/3: the documented recurrence)", fn, bad)
-            else:
-                ctx.error(f"{tag}: evaluation", fn, r.partial)
-            continue
-        ok = _eq(d[:, 0], r.u0) and _eq(d[:, 1], r.u1) and r.init_args_ok()
-        ctx.check(ok, f"{tag}: the start-up step gets (force, d0, v0) and its displacements (columns 0 and 1) are kept", fn)
-        bad = None
-        for j in range(2, NT):
-            want = Fs[:, j] + Fs[:, j - 1] + Fs[:, j - 2] + r.N(j - 1) + mul(A1, d[:, j - 1]) + mul(A0, d[:, j - 2])
-            if not _eq(d[:, j], want):
-                bad = {"step": j, "code": _show(d[:, j]), "documented": _show(want)}
-                break
-        ctx.check(bad is None, f"{tag}: u_j = F_j + F_j-1 + F_j-2 {'+ N_j-1 ' if nonlin else ''}+ A1 u_j-1 + A0 u_j-2 for every step j >= 2 "
-                               "(forces already scaled by inv(A)/3: the documented recurrence)", fn, bad)
-        # last step: the same recurrence at j = nt with F_nt := 2 F_last - F_last-1 (linear extrapolation)
-        Fe = 2 * Fs[:, NT - 1] - Fs[:, NT - 2]
-        want = Fe + Fs[:, NT - 1] + Fs[:, NT - 2] + r.N(NT - 1) + mul(A1, d[:, NT - 1]) + mul(A0, d[:, NT - 2])
-        ok = _eq(r.De(), want)
-        ctx.check(ok, f"{tag}: the extra step behind the last velocity is the recurrence with the force linearly extrapolated "
-                      f"(F_e + F_-1 + F_-2 = 3 F_-1){' and the nonlinear term of the last step' if nonlin else ''}", fn,
-                  None if ok else {"code": _show(r.De()), "documented": _show(want)})
-    base = runs.get((UNC_F, False))
+        ctx.check(ok, f"SolveNewmark: the comment's formula for {nm} agrees with the class documentation", cls, None if ok else repr(v), nontrivial=False)
+    # start-up step: u_-1 = u_0 - v_0 h ; F_-1 = K u_-1 + B v_0 ; F_0 := K u_0 + B v_0 ; A u_1 = (F_1 + F_0 + F_-1)/3 + N_0 + A_1 u_0 + A_0 u_-1
+    where, runs = _newmark_runs(ctx)
     for key, r in runs.items():
-        if key == (UNC_F, False) or r is None or base is None or r.partial or base.partial:
+        if r is None or key in _R6_KEYS:
             continue
-        unc, nonlin = key
-        mp = {}
-        if not unc:
-            mp.update(_to_diag_names("A1"))
-            mp.update(_to_diag_names("A0"))
-        if nonlin:
-            for k_ in range(2):
-                for j in range(NT):
-                    for q in range(NZ):
-                        mp[f"z{k_}_{j}_{q}"] = F.const(0)
-        try:
-            same = _eq(_subs_arr(r.d, mp), base.d) and _eq(_subs_arr(r.De(), mp), base.De())
-        except Unsupported as e:
-            ctx.error(f"tsolve: comparison of the {_cfg(unc, nonlin)} arm with the uncoupled linear arm", fn, str(e))
-            continue
-        ctx.check(same, f"tsolve: the {'uncoupled' if unc else 'coupled'}/{'nonlinear' if nonlin else 'linear'} arm is the uncoupled linear arm "
-                        "(diagonal coefficient matrices, vanishing nonlinear terms)", fn)
-    rs = runs.get((UNC_F, True))
-    if ri is not None and rs is not None and not rs.partial:
-        same = _eq(ri.d, rs.d) and _eq(ri.v, rs.v) and _eq(ri.a, rs.a)
-        ctx.check(same, "tsolve: with index-vector partitions (d[kdof] is a copy) the same d, v, a reach the solution as with slice partitions", fn)
-    runs[(UNC_F, True, "index")] = ri
+        if r.nonlin:
+            _emit(ctx, r, "nl0", "when the nonlinear functions are evaluated at j = 0 as func(d, 0, h, **optargs), column 0 of d is u_0 and the last "
+                                 "column holds the documented u_-1 = u_0 - v_0 h (unconditionally: def_nonlin documents d[:, j-1] for j = 0)", where)
+            _emit(ctx, r, "z0", "sol.z[key] has one column per time step and column 0 is the function output at j = 0", where)
+        _emit(ctx, r, "u1", "the first step uses F_0 := K u_0 + B v_0, F_-1 = K u_-1 + B v_0, u_-1 = u_0 - v_0 h and the start-up nonlinear term N_0 "
+                            "in the documented recurrence; column 0 is u_0 (zero when no initial displacement is given)", where)
+        _emit(ctx, r, "a0", "the initial acceleration is the central difference (u_1 - 2 u_0 + u_-1)/h^2 and the initial velocity is v_0", where)
+        _emit(ctx, r, "f0", "the second step uses the replaced F_0 = K u_0 + B v_0 and the 1/3 average of three forces pre-multiplied by inv(A)", where)
+        if r.rf:
+            _emit(ctx, r, "rf", "the rf equations are solved statically, K_rf d_rf = F_rf at every step, initial conditions ignored", where)
 
 
 def r3_differences(ctx):
-    fn, runs = _tsolve_runs(ctx)
-    live = {k: r for k, r in runs.items() if r is not None and len(k) == 2 and not r.partial}
+    where, runs = _newmark_runs(ctx)
+    live = {k: r for k, r in runs.items() if r is not None and k not in _R6_KEYS}
     if not live:
         return
-    h2, sqh = 2 * H, H * H
-    bad = [k for k, r in live.items() if not (all(_eq(r.v[:, i], (r.d[:, i + 1] - r.d[:, i - 1]) / h2) for i in range(1, NT - 1)) and _eq(r.v[:, 0], r.v0))]
-    ctx.check(not bad, "tsolve: interior velocities are the documented central difference (u_n+1 - u_n-1)/(2h) and the initial velocity is kept", fn,
-              None if not bad else [_cfg(*k) for k in bad])
-    bad = [k for k, r in live.items() if not (all(_eq(r.a[:, i], (r.d[:, i + 1] - 2 * r.d[:, i] + r.d[:, i - 1]) / sqh) for i in range(1, NT - 1))
-                                              and _eq(r.a[:, 0], r.a0))]
-    ctx.check(not bad, "tsolve: interior accelerations are the documented central difference (u_n+1 - 2 u_n + u_n-1)/h^2 and the start-up "
-                       "acceleration is kept", fn, None if not bad else [_cfg(*k) for k in bad])
-    bad = [k for k, r in live.items() if not _eq(r.a[:, NT - 1], (r.De() - 2 * r.d[:, NT - 1] + r.d[:, NT - 2]) / sqh)]
-    ctx.check(not bad, "tsolve: the last velocity and acceleration use the same extrapolated step De in the documented differences", fn,
-              None if not bad else [_cfg(*k) for k in bad])
-    # nonlinear term placement
-    for (unc, nonlin), r in live.items():
-        if not nonlin:
+    for name, text in (("vel", "interior velocities are the documented central difference (u_n+1 - u_n-1)/(2h) and the initial velocity is kept"),
+                       ("acc", "interior accelerations are the documented central difference (u_n+1 - 2 u_n + u_n-1)/h^2"),
+                       ("last", "the last velocity and acceleration use the same extrapolated step in the documented differences")):
+        bad = [r.tag for r in live.values() if not r.facts_[name][0]]
+        ctx.check(not bad, f"tsolve: {text}", where, bad or None)
+    for key, r in live.items():
+        if not r.nonlin:
             continue
-        tag = f"tsolve ({_cfg(unc, nonlin)})"
-        t = r.terms
-        want = {(k_, j) for k_ in range(2) for j in range(1, NT)}
-        got = [(c["k"], c["j"]) for c in t.calls]
-        ok = set(got) == want and len(got) == len(want) and all(
-            t.call_ok(c) and c["snap"].shape == (N, NT) and all(_eq(c["snap"][:, i], r.d[:, i]) for i in range(c["j"] + 1)) for c in t.calls)
-        ctx.check(ok, f"{tag}: every nonlinear function is evaluated once per step j = 1 .. nt-1 as func(D, j, h, **optargs) on the final "
-                      "displacements of steps 0 .. j (its force feeds step j+1; that of step nt-1 feeds the extra step)", fn, None if ok else got)
-        z = r.me.attrs.get("z")
-        ok = isinstance(z, dict) and set(z) == set(t.keys) and all(
-            isinstance(z[key], I.NDArr) and z[key].shape == (NZ, NT) and all(_eq(z[key][:, j], t.z(k_, j)) for j in range(NT))
-            for k_, key in enumerate(t.keys)) and r.sol.attrs.get("z") is z
-        ctx.check(ok, f"{tag}: the output of every nonlinear function at step j is recorded in column j of z[key] and returned as sol.z", fn,
-                  None if ok else _show(z))
-    dn = ctx.src.func(NM, "SolveNewmark.def_nonlin")
-    for unc in (UNC_F, CPL):
-        tag = f"def_nonlin ({'uncoupled' if unc else 'coupled'})"
-        t = NLTerms()
-        it = I.Interp(ctx, on_opaque=t.hook)
-        me = _nm_self(it, unc)
-        dct = {t.keys[0]: (t.funcs[0], t.T[0]), t.keys[1]: (t.funcs[1], t.T[1], t.kwargs[1])}
-        ok, _ = _guard(ctx, tag, dn, lambda: it.call_method(me, "def_nonlin", dct))
-        if not ok:
-            continue
-        inva = _inv_a(me, unc)
-        nl = me.attrs.get("nl_dct")
-        ok = isinstance(nl, dict) and set(nl) == set(t.keys) and me.attrs.get("nonlin_terms") == 2 and not t.calls
-        if ok:
-            for k_, key in enumerate(t.keys):
-                e = nl[key]
-                ok = ok and isinstance(e, (tuple, list)) and len(e) == 3 and e[0] is t.funcs[k_] and _eq(e[1], inva(t.T[k_])) and \
-                    isinstance(e[2], dict) and e[2] == t.kwargs[k_]
-        ctx.check(ok, f"{tag}: every term keeps its function and optional arguments, its transform is pre-multiplied by inv(A) like every other "
-                      "right-hand-side term, and nonlin_terms counts the terms", dn, None if ok else _show(nl))
+        _emit(ctx, r, "nlcalls", "every nonlinear function is evaluated once per step j = 1 .. nt-1 as func(D, j, h, **optargs) on the final "
+                                 "displacements of steps 0 .. j (its force feeds step j+1; that of step nt-1 feeds the extra step)", where)
+        _emit(ctx, r, "zrec", "the output of every nonlinear function at step j is recorded in column j of sol.z[key]", where)
+        _emit(ctx, r, "nterms", "def_nonlin calls no user function, counts the terms in nonlin_terms, and every later call gets the term's own optional "
+                                "arguments (none for a 2-tuple); the transforms act through inv(A) like every other right-hand-side term", where)
 
 
 # ---------------------------------------------------------------------------
-def _isdiag(it, a, k):
-    """pyyeti.ytools.isdiag on a symbolic matrix: diagonal iff every off-diagonal entry is the constant zero"""
-    m = a[0]
-    if not isinstance(m, I.NDArr) or m.ndim != 2 or m.shape[0] != m.shape[1]:
-        return False
-    return all(I.R(m.item(i, j)).is_zero() for i in range(m.shape[0]) for j in range(m.shape[1]) if i != j)
-
-
-def _chk_diag(ctx, fn, tag, m, b, k, cd_as_force):
-    it = I.Interp(ctx, stubs={"pyyeti.ytools.isdiag": _isdiag, "isdiag": _isdiag})
-    me = I.Obj(it.cls(BASE, "_BaseODE"), "self", rfsize=0, nonrf=slice(None), rf=slice(0, 0))
-    ok, _ = _guard(ctx, tag, fn, lambda: it.call_method(me, "_chk_diag_part", m, b, k, cd_as_force))
-    return me if ok else None
-
-
-def _tv(test, fn, env, depth=0):
-    """three-valued truth of a test under {dotted name: bool}; a local assigned exactly once in `fn` stands for its defining expression"""
-    d = dotted(test)
-    if d is not None and d in env:
-        return env[d]
-    if isinstance(test, ast.Constant):
-        return bool(test.value)
-    if isinstance(test, ast.UnaryOp) and isinstance(test.op, ast.Not):
-        r = _tv(test.operand, fn, env, depth)
-        return None if r is None else (not r)
-    if isinstance(test, ast.BoolOp):
-        rs = [_tv(v, fn, env, depth) for v in test.values]
-        if isinstance(test.op, ast.And):
-            return False if any(r is False for r in rs) else (True if all(r is True for r in rs) else None)
-        return True if any(r is True for r in rs) else (False if all(r is False for r in rs) else None)
-    if isinstance(test, ast.Compare) and len(test.ops) == 1 and isinstance(test.comparators[0], ast.Constant) \
-            and isinstance(test.comparators[0].value, bool) and isinstance(test.ops[0], (ast.Is, ast.Eq, ast.IsNot, ast.NotEq)):
-        r = _tv(test.left, fn, env, depth)
-        if r is None:
-            return None
-        r = r == test.comparators[0].value
-        return r if isinstance(test.ops[0], (ast.Is, ast.Eq)) else not r
-    if isinstance(test, ast.Name) and depth < 4:
-        defs = [st for st in walk_no_nested(fn) if isinstance(st, ast.Assign) and any(isinstance(t, ast.Name) and t.id == test.id for t in st.targets)]
-        others = [n for n in walk_no_nested(fn) if isinstance(n, ast.Name) and n.id == test.id and isinstance(n.ctx, ast.Store)]
-        if len(defs) == 1 and len(others) == 1:
-            return _tv(defs[0].value, fn, env, depth + 1)
-    return None
-
-
-def _terminates(body):
-    return bool(body) and isinstance(body[-1], (ast.Return, ast.Raise))
-
-
-def _unreachable(node, fn, env):
-    """node cannot execute when the names of `env` have the given truth values (dominating tests and preceding guard clauses)"""
-    child = node
-    for a in ancestors(node):
-        if isinstance(a, (ast.If, ast.IfExp)):
-            body = a.body if isinstance(a.body, list) else [a.body]
-            orelse = a.orelse if isinstance(a.orelse, list) else [a.orelse]
-            t = _tv(a.test, fn, env)
-            if any(child is x for x in body) and t is False:
-                return True
-            if any(child is x for x in orelse) and t is True:
-                return True
-        for blk in ("body", "orelse", "finalbody"):
-            lst = getattr(a, blk, None)
-            if isinstance(lst, list) and any(child is x for x in lst):
-                for prev in lst[:[i for i, x in enumerate(lst) if x is child][0]]:
-                    if isinstance(prev, ast.If):
-                        t = _tv(prev.test, fn, env)
-                        if (t is True and _terminates(prev.body)) or (t is False and _terminates(prev.orelse)):
-                            return True
-        if a is fn:
-            break
-        child = a
-    return False
-
-
 def _forwarding(ctx, it, cdf, unc_cls, name):
     """SolveCDF.<name> evaluated with SolveUnc.<name> replaced by a recorder: {parameter of SolveUnc.<name>: value}, token returned, effects"""
     c, node = cdf.find(it, name)
@@ -779,47 +752,164 @@ def _plain_equal(a, b):
     return type(a) is type(b) and a == b
 
 
+# ---------------------------------------------------------------------------
+# SolveCDF / SolveUnc(cd_as_force=True), also through the public interface: constructor -> tsolve / generator -> finalize.  The integration
+# coefficients come from pyyeti.ode.get_su_coef, a public function with a documented result (F, G, A, B, Fp, Gp, Ap, Bp: C15/C16 territory): its
+# result is *named* (one symbol per coefficient and equation), its arguments are recorded.
+_COEFS = ("F", "G", "A", "B", "Fp", "Gp", "Ap", "Bp")
+
+
+def _cdf_interp(ctx):
+    log = []
+
+    def su_coef(it_, args, kwargs):
+        fn = ctx.src.func("pyyeti/ode/_utilities.py", "get_su_coef")
+        names = [a.arg for a in fn.args.args]
+        env = dict(zip(names, args))
+        env.update(kwargs)
+        kk = env.get("k")
+        n = kk.shape[0] if isinstance(kk, I.NDArr) and kk.ndim == 1 else None
+        if n is None:
+            raise I.PyRaise("ValueError", "get_su_coef: m, b, k must be vectors")
+        pc = I.Obj(None, "pc", **{c: vec("c" + c, n) for c in _COEFS})
+        log.append({"env": env, "pc": pc})
+        return pc
+
+    def su_eig(it_, args, kwargs):
+        return I.Opaque("result of get_su_eig")
+
+    def assume(op, a, b):
+        """`abs(k) < tol` on symbolic stiffness: the generic system has no (numerically) rigid-body mode"""
+        if isinstance(op, (ast.Lt, ast.LtE)) and isinstance(a, I.NDArr) and I.is_num(b) and I.R(b).is_const() and I.R(b).const_value() > 0 \
+                and all(not isinstance(x, (bool, I.Und)) and not I.R(x).is_const() for x in a.flat()):
+            r = I.NDArr.full(a.shape, False)
+            r.kind = "bool"
+            return r
+        return None
+    it = _interp(ctx, stubs={"pyyeti.ode._utilities.get_su_coef": su_coef, "get_su_coef": su_coef})
+    it.overrides["SolveUnc.get_su_eig"] = su_eig        # the eigen-solution of coupled systems is another property's subject
+    it.assume_cmp = assume
+    it.su_log = log
+    return it
+
+
+def _diag_of(b):
+    return I._np_diag(None, [b], {}) if b.ndim == 2 else b
+
+
+def _offdiag_of(b):
+    n = b.shape[0]
+    return I.NDArr.new((n, n), [F.const(0) if i == j else b.item(i, j) for i in range(n) for j in range(n)])
+
+
+def _same_value(x, y, depth=0):
+    if isinstance(x, I.NDArr) or isinstance(y, I.NDArr):
+        return _eq(x, y)
+    if isinstance(x, I.Obj) and isinstance(y, I.Obj) and depth < 2:
+        return set(x.attrs) == set(y.attrs) and all(_same_value(x.attrs[q], y.attrs[q], depth + 1) for q in x.attrs)
+    if isinstance(x, I.LU) and isinstance(y, I.LU):
+        return _eq(x.mat, y.mat)
+    if isinstance(x, (I.Rat, int)) and isinstance(y, (I.Rat, int)) and not isinstance(x, bool) and not isinstance(y, bool):
+        return I.s_equal(x, y)
+    if isinstance(x, I.Opaque) and isinstance(y, I.Opaque):
+        return x.name == y.name
+    return type(x) is type(y) and x == y
+
+
+def _strip(trace, cls="SolveCDF."):
+    return [t for t in trace if not t.startswith(cls)]
+
+
+def _diag_damping_case(ctx, where, tag, m, b, k, with_generator):
+    """SolveCDF(m, b, k, h) against SolveUnc(m, b, k, h) on diagonal damping: members, tsolve, generator + finalize, executed functions"""
+    nt = 3
+    res = {}
+    for cname, rel in (("SolveCDF", CDF), ("SolveUnc", UNC)):
+        it = _cdf_interp(ctx)
+        f, d0, v0 = mat("f", N, nt), vec("d0"), vec("v0")
+
+        def go(it=it, cname=cname, rel=rel, f=f, d0=d0, v0=v0):
+            obj = it.instantiate(it.cls(rel, cname), m.copy(), b.copy(), k.copy(), H)
+            mem = dict(obj.attrs)
+            sol = it.call_method(obj, "tsolve", f.copy(), d0.copy(), v0.copy())
+            out = {"obj": obj, "members": mem, "sol": sol, "trace": list(it.trace)}
+            if with_generator:
+                n0 = len(it.trace)
+                got = it.call_method(obj, "generator", nt, f[:, 0].copy(), d0.copy(), v0.copy())
+                gen = got[0] if isinstance(got, tuple) and got else None
+                if not isinstance(gen, I.PyIter) or not isinstance(gen.it, I.GenDriver):
+                    raise I.PyRaise("TypeError", f"generator() returned {_show(got)}")
+                for i in range(1, nt):
+                    I._gen_send(gen.it, (i, f[:, i].copy()))
+                out["gsol"] = it.call_method(obj, "finalize")
+                out["gtrace"] = list(it.trace[n0:])
+            return out
+        ok, r = _guard(ctx, f"{tag}: {cname}", where, go)
+        if not ok:
+            return None
+        res[cname] = r
+    c, u = res["SolveCDF"], res["SolveUnc"]
+    bad = []
+    if c["members"].get("cdforces") is not False or "bo" in c["members"] or c["members"].get("unc") is not True:
+        bad.append(f"cdforces={c['members'].get('cdforces')!r}")
+    keys = (set(c["members"]) | set(u["members"])) - {"mid", "bid", "kid"}          # the id()s of the caller's arrays
+    diff = sorted(q for q in keys if q not in c["members"] or q not in u["members"] or not _same_value(c["members"][q], u["members"][q]))
+    if diff:
+        bad.append(f"members differ: {diff}")
+    for what in ("sol",) + (("gsol",) if with_generator else ()):
+        if not (isinstance(c[what], I.Obj) and isinstance(u[what], I.Obj) and all(_eq(c[what].attrs.get(q), u[what].attrs.get(q)) for q in "dva")):
+            bad.append(f"{'tsolve' if what == 'sol' else 'generator/finalize'} histories differ")
+    for what in ("trace",) + (("gtrace",) if with_generator else ()):
+        if _strip(c[what]) != _strip(u[what]):
+            bad.append(f"executed functions differ: {[t for t in _strip(c[what]) if t not in u[what]]}")
+    return bad
+
+
 def r4_cdf_equals_unc_on_diagonal(ctx):
-    fn = ctx.src.func(BASE, "_BaseODE._chk_diag_part")
-    dv = lambda nm: vec(nm, 3)
-    dm = lambda nm: I._np_diag(None, [vec(nm, 3)], {})
-    fm = lambda nm: mat(nm, 3, 3)
-    keys = ("m", "b", "k", "unc", "cdforces", "krf")
-
-    def same(x, y):
-        return all((_eq(x.attrs.get(q), y.attrs.get(q)) if isinstance(x.attrs.get(q), I.NDArr) else x.attrs.get(q) == y.attrs.get(q)) for q in keys) \
-            and ("bo" in x.attrs) == ("bo" in y.attrs)
-
-    ok_all, detail = True, []
+    where = ctx.src.cls(CDF, "SolveCDF")
+    dv = lambda nm: vec(nm, N)
+    dm = lambda nm: I._np_diag(None, [vec(nm, N)], {})
+    fm = lambda nm: mat(nm, N, N)
+    bad_members, bad_paths, okrun = [], [], True
+    first = True
     for nm, mk in (("vector", dv), ("diagonal matrix", dm)):
         for mk_mk in (dv, dm):
-            tag = f"_chk_diag_part (damping given as {nm})"
-            on = _chk_diag(ctx, fn, tag, mk_mk("m"), mk("b"), mk_mk("k"), True)
-            off = _chk_diag(ctx, fn, tag, mk_mk("m"), mk("b"), mk_mk("k"), False)
-            if on is None or off is None:
-                ok_all = None
+            tag = f"diagonal damping given as {nm}"
+            bad = _diag_damping_case(ctx, where, tag, mk_mk("m"), mk("b"), mk_mk("k"), with_generator=first)
+            first = False
+            if bad is None:
+                okrun = False
                 continue
-            if not (on.attrs.get("cdforces") is False and on.attrs.get("unc") is True and same(on, off)):
-                ok_all = False
-                detail.append(f"{nm}: cdforces={on.attrs.get('cdforces')!r}")
-    if ok_all is not None:
-        ctx.check(ok_all, "_chk_diag_part: with diagonal damping (vector or diagonal matrix) cd_as_force changes nothing and cdforces stays False - "
-                          "SolveCDF takes exactly SolveUnc's path", fn, detail or None)
+            bad_members += [f"{nm}: {x}" for x in bad if not x.startswith("executed")]
+            bad_paths += [f"{nm}: {x}" for x in bad if x.startswith("executed") or "histories" in x]
+    if okrun:
+        ctx.check(not bad_members, "with diagonal damping (vector or diagonal matrix) SolveCDF(m, b, k, h) has exactly the members of SolveUnc(m, b, k, h), "
+                                   "cdforces stays False, and tsolve / generator + finalize return the same histories", where, bad_members or None)
+        ctx.check(not bad_paths, "with diagonal damping tsolve and generator of SolveCDF execute exactly the functions SolveUnc executes: no "
+                                 "damping-as-force code is reached when cdforces is False", where, bad_paths or None)
+    # coupled damping on otherwise diagonal equations
     b = fm("b")
-    on = _chk_diag(ctx, fn, "_chk_diag_part (coupled damping, cd_as_force)", dv("m"), b, dm("k"), True)
-    if on is not None:
+    it = _cdf_interp(ctx)
+    ok, on = _guard(ctx, "SolveCDF (coupled damping)", where, lambda: it.instantiate(it.cls(CDF, "SolveCDF"), dv("m"), b.copy(), dm("k"), H))
+    if ok:
         bo = on.attrs.get("bo")
-        ok = on.attrs.get("cdforces") is True and on.attrs.get("unc") is True and _eq(on.attrs.get("b"), I._np_diag(None, [b], {})) and \
-            isinstance(bo, I.NDArr) and bo.shape == (3, 3) and all(I.s_equal(bo.item(i, j), 0 if i == j else b.item(i, j)) for i in range(3) for j in range(3))
-        ctx.check(ok, "_chk_diag_part: with coupled damping on otherwise diagonal equations cd_as_force sets cdforces, keeps the diagonal of the damping as "
-                      "b and its off-diagonal part as bo (the C_od of the documented recurrence)", fn, None if ok else _show(bo))
-    off = _chk_diag(ctx, fn, "_chk_diag_part (coupled damping, no cd_as_force)", dv("m"), fm("b"), dm("k"), False)
-    on2 = _chk_diag(ctx, fn, "_chk_diag_part (coupled damping and stiffness, cd_as_force)", dv("m"), fm("b"), fm("k"), True)
-    on3 = _chk_diag(ctx, fn, "_chk_diag_part (coupled damping and mass, cd_as_force)", fm("m"), fm("b"), dv("k"), True)
-    if off is not None and on2 is not None and on3 is not None:
-        ok = all(x.attrs.get("cdforces") is False and x.attrs.get("unc") is False for x in (off, on2, on3))
-        ctx.check(ok, "_chk_diag_part: a system that is not fully uncoupled (or did not ask for cd_as_force) has cdforces False", fn,
-                  None if ok else [(x.attrs.get("cdforces"), x.attrs.get("unc")) for x in (off, on2, on3)])
+        env = it.su_log[-1]["env"] if it.su_log else {}
+        ok = on.attrs.get("cdforces") is True and on.attrs.get("unc") is True and _eq(on.attrs.get("b"), _diag_of(b)) and \
+            isinstance(bo, I.NDArr) and _eq(bo, _offdiag_of(b)) and len(it.su_log) == 1 and _eq(env.get("b"), _diag_of(b)) and \
+            _eq(env.get("m"), dv("m")) and _eq(env.get("k"), dv("k")) and I.s_equal(env.get("h"), H)
+        ctx.check(ok, "with coupled damping on otherwise diagonal equations SolveCDF sets cdforces, keeps the diagonal of the damping as b (the damping "
+                      "get_su_coef gets) and its off-diagonal part as bo (the C_od of the documented recurrence)", where, None if ok else _show(bo))
+    outs = []
+    for tag, cname, rel, args, kw in (("SolveUnc, coupled damping, no cd_as_force", "SolveUnc", UNC, (dv("m"), fm("b"), dm("k")), {}),
+                                      ("SolveCDF, coupled damping and stiffness", "SolveCDF", CDF, (dv("m"), fm("b"), fm("k")), {}),
+                                      ("SolveCDF, coupled damping and mass", "SolveCDF", CDF, (fm("m"), fm("b"), dv("k")), {})):
+        it = _cdf_interp(ctx)
+        ok, x = _guard(ctx, tag, where, lambda: it.instantiate(it.cls(rel, cname), *args, H, rb=[], **kw))
+        outs.append(x if ok else None)
+    if all(x is not None for x in outs):
+        ok = all(x.attrs.get("cdforces") is False and x.attrs.get("unc") is False and "bo" not in x.attrs for x in outs)
+        ctx.check(ok, "a system that is not fully uncoupled (or did not ask for cd_as_force) has cdforces False", where,
+                  None if ok else [(x.attrs.get("cdforces"), x.attrs.get("unc")) for x in outs])
     it = I.Interp(ctx)
     cdf, unc_cls = it.cls(CDF, "SolveCDF"), it.cls(UNC, "SolveUnc")
     for name in ("__init__", "generator", "fsolve"):
@@ -847,121 +937,153 @@ def r4_cdf_equals_unc_on_diagonal(ctx):
                 good = good and r["res"] is r["ret"]
         what = "is SolveUnc.__init__ with cd_as_force=True and nothing else" if name == "__init__" else "only delegates to SolveUnc"
         ctx.check(good, f"{tag} {what} (every argument, given or defaulted, reaches the parameter of the same name)", c)
-    # every cdforces-specific solver in SolveUnc / _BaseODE / SolveCDF is unreachable when self.cdforces is False
-    uses = []
-    for rel in (UNC, BASE, CDF):
-        m = ctx.src.mod(rel)
-        for q, f2 in m.funcs.items():
-            for n in walk_no_nested(f2):
-                if isinstance(n, ast.Call) and (dotted(n.func) or "").endswith("_cdforces"):
-                    uses.append((q, ast.unparse(n.func), _unreachable(n, f2, {"self.cdforces": False})))
-    ok = bool(uses) and all(u[2] for u in uses)
-    ctx.check(ok, "the damping-as-force solver and generator cannot be reached when self.cdforces is False", UNC + ":1", uses)
 
 
 # ---------------------------------------------------------------------------
-def _alpha_doc(bo, Bp):
-    """alpha = C_od (I + diag(Bp) C_od)^-1 as documented (SolveCDF / the comment in SolveUnc.__init__)"""
-    n = bo.shape[0]
-    return bo @ I.inverse(I._np_eye(None, [n], {}) + I._np_diag(None, [Bp], {}) @ bo)
-
-
-def _offdiag(name, n):
-    return I.NDArr.new((n, n), [F.const(0) if i == j else F.sym(f"{name}_{i}_{j}") for i in range(n) for j in range(n)])
-
-
-def _pc(n=N):
-    return I.Obj(None, "pc", **{c: vec("c" + c, n) for c in ("F", "G", "A", "B", "Fp", "Gp", "Ap", "Bp")})
-
-
 def r5_implicit_update(ctx):
     """V1 = v_part - Bp alpha v_part solves V1 = Fp d + Gp v + Ap (f0 - bo v0) + Bp (f1 - bo V1), alpha = bo (I + Bp bo)^-1"""
-    init = ctx.src.func(UNC, "SolveUnc.__init__")
-    for n, bo, what in ((2, mat("bo", 2, 2), "a generic 2-dof system"), (3, _offdiag("bo", 3), "a 3-dof system with zero-diagonal C_od")):
-        tag = f"SolveUnc.__init__ ({what})"
-        pc = _pc(n)
-
-        def su_coef(it_, args, kwargs, pc=pc):
-            return pc
-        it = I.Interp(ctx, stubs={"pyyeti.ode._utilities.get_su_coef": su_coef, "get_su_coef": su_coef})
-        me = I.Obj(it.cls(UNC, "SolveUnc"), "self", ksize=n, unc=True, systype=I.FLOAT, cdforces=True, bo=bo, m=vec("m", n), b=vec("b", n),
-                   k=vec("k", n), _rb=I.Opaque("_rb"), _el=I.Opaque("_el"), rb=I.Opaque("rb"), el=I.Opaque("el"), h=H, n=n, rfsize=0, nonrfsz=n,
-                   pre_eig=False, rf=slice(0, 0), nonrf=slice(None), kdof=slice(None))
-        me.absent.update({"pc", "order"})                # __init__ creates them
-        for nm in ("_common_precalcs", "_inv_m", "_mk_slices", "get_su_eig"):
-            me.overrides[nm] = lambda it_, args, kwargs: None
-        ok, _ = _guard(ctx, tag, init, lambda: it.call_method(me, "__init__", vec("m", n), vec("b", n), vec("k", n), H, cd_as_force=True))
+    where = ctx.src.cls(CDF, "SolveCDF")
+    # the member pc.alpha (SolveCDF's docstring: alpha = C_od (I + Bp C_od)^-1), when it is kept as a matrix
+    for n, what in ((2, "a generic 2-dof system"), (3, "a generic 3-dof system")):
+        tag = f"SolveCDF(m, b, k, h) ({what})"
+        it = _cdf_interp(ctx)
+        b = mat("b", n, n)
+        ok, me = _guard(ctx, tag, where, lambda: it.instantiate(it.cls(CDF, "SolveCDF"), vec("m", n), b.copy(), vec("k", n), H))
         if not ok:
             continue
         got = me.attrs.get("pc")
         alpha = got.attrs.get("alpha") if isinstance(got, I.Obj) else None
-        if not isinstance(alpha, I.NDArr) or alpha.shape != (n, n):
-            ctx.fail(f"{tag}: pc.alpha is computed when cdforces is set", init, _show(alpha))
+        if not isinstance(alpha, I.NDArr) or alpha.shape != (n, n) or not it.su_log:
+            ctx.ok(f"{tag}: the implicit-update matrix is kept in a representation of its own; it is decided on the history", where, nontrivial=False)
             continue
         # X (I + diag(Bp) C_od) = C_od  decides  X = C_od (I + diag(Bp) C_od)^-1 : a right division, with Bp scaling the ROWS of C_od
-        lhs = alpha @ (I._np_eye(None, [n], {}) + I._np_diag(None, [pc.attrs["Bp"]], {}) @ bo)
+        bo = _offdiag_of(b)
+        lhs = alpha @ (I._np_eye(None, [n], {}) + I._np_diag(None, [it.su_log[-1]["pc"].attrs["Bp"]], {}) @ bo)
         ok = _eq(lhs, bo)
         ctx.check(ok, f"{tag}: alpha (I + diag(Bp) C_od) = C_od, i.e. alpha = C_od (I + Bp C_od)^-1 with the documented order of the matrix "
-                      "products", init, None if ok else _show(alpha))
-    fn = ctx.src.func(UNC, "SolveUnc._solve_real_unc_cdforces")
+                      "products", where, None if ok else _show(alpha))
     nt = 3
-    for order, ip in ((1, False), (0, True)):
-        tag = f"_solve_real_unc_cdforces (order {order}, {'index-vector' if ip else 'slice'} partitions)"
-        pc = _pc()
-        bo = _offdiag("bo", N)
-        pc.attrs["alpha"] = _alpha_doc(bo, pc.attrs["Bp"])
-        it = I.Interp(ctx)
-        part = _ivec(*range(N)) if ip else slice(None)
-        me = I.Obj(it.cls(UNC, "SolveUnc"), "self", pc=pc, bo=bo, kdof=part, nonrf=part, order=order, slices=not ip, ksize=N, nonrfsz=N, n=N, rfsize=0,
-                   unc=True, cdforces=True, systype=I.FLOAT, h=H, rf=slice(0, 0), pre_eig=False)
-        zero = F.const(0)
-        d, v = I.NDArr.full((N, nt), zero), I.NDArr.full((N, nt), zero)
-        q0, qd0 = vec("q0"), vec("qd0")
-        for r in range(N):
-            d.st.data[d.ix[r * nt]] = q0.flat()[r]
-            v.st.data[v.ix[r * nt]] = qd0.flat()[r]
-        f = mat("f", N, nt)
-        ok, why = _guard(ctx, tag, fn, lambda: it.call_method(me, "_solve_real_unc_cdforces", d, v, f), partial=True)
+    for order, rf in ((1, None), (0, "interleaved")):
+        tag = f"SolveCDF.tsolve (order {order}, {'one rf mode between the others: index-vector partitions' if rf else 'slice partitions'})"
+        ntot = N + (1 if rf else 0)
+        K_, RF_ = ([0, 2], [1]) if rf else ([0, 1], [])
+        it = _cdf_interp(ctx)
+        bk = mat("b")                                # the damping of the non-rf equations: full
+        m, k = vec("m", ntot), vec("k", ntot)
+        if rf:
+            ents = [[F.const(0)] * ntot for _ in range(ntot)]
+            for i, p_ in enumerate(K_):
+                for j, q_ in enumerate(K_):
+                    ents[p_][q_] = bk.item(i, j)
+            ents[RF_[0]][RF_[0]] = F.sym("brf")
+            b = I.NDArr.new((ntot, ntot), [e for r in ents for e in r])
+        else:
+            b = bk
+        f, d0, v0 = mat("f", ntot, nt), vec("d0", ntot), vec("v0", ntot)
+
+        def go(it=it, m=m, b=b, k=k, f=f, d0=d0, v0=v0, order=order, rf=rf, RF_=RF_):
+            kw = {"rf": list(RF_)} if rf else {}
+            obj = it.instantiate(it.cls(CDF, "SolveCDF"), m.copy(), b.copy(), k.copy(), H, order=order, **kw)
+            return obj, it.call_method(obj, "tsolve", f.copy(), d0.copy(), v0.copy())
+        ok, res = _guard(ctx, tag, where, go, partial=True)
+        if ok == "toolarge":
+            nt2 = 2                                   # decide on one step
+
+            def go2(it=_cdf_interp(ctx)):
+                kw = {"rf": list(RF_)} if rf else {}
+                obj = it.instantiate(it.cls(CDF, "SolveCDF"), m.copy(), b.copy(), k.copy(), H, order=order, **kw)
+                go2.it = it
+                return obj, it.call_method(obj, "tsolve", f[:, :nt2].copy(), d0.copy(), v0.copy())
+            ok, res = _guard(ctx, tag, where, go2)
+            if ok:
+                it = go2.it
         if not ok:
             continue
-        c = pc.attrs
-        good_v = good_d = True
-        steps = nt - 1
-        if ok == "partial":
-            # cut off by the formula budget: decide on the first step if it had been stored
-            done_d, done_v = {i for _, i, _, _ in d.st.log}, {i for _, i, _, _ in v.st.log}
-            if not all(d.ix[r * nt + 1] in done_d and v.ix[r * nt + 1] in done_v for r in range(N)):
-                ctx.error(f"{tag}: evaluation", fn, why)
-                continue
-            steps = 1
-        for i in range(steps):
-            di, vi, V1, D1 = d[:, i], v[:, i], v[:, i + 1], d[:, i + 1]
-            f0 = f[:, i]
-            f1 = f[:, i + 1] if order == 1 else f[:, i]
-            rhs_v = c["Fp"] * di + c["Gp"] * vi + c["Ap"] * (f0 - bo @ vi) + c["Bp"] * (f1 - bo @ V1)
-            rhs_d = c["F"] * di + c["G"] * vi + c["A"] * (f0 - bo @ vi) + c["B"] * (f1 - bo @ V1)
-            if i == 0:
-                ok = _eq(V1, rhs_v) and _eq(v[:, 0], qd0)
-                ctx.check(ok, f"{tag}: the velocity update solves the commented implicit equation V1 = Fp d + Gp v + Ap (f0 - C_od v0) + Bp (f1 - C_od V1)",
-                          fn, None if ok else _show(V1))
-                ok = _eq(D1, rhs_d) and _eq(d[:, 0], q0)
-                ctx.check(ok, f"{tag}: the displacement update is D1 = F d + G v + A (f0 - C_od v0) + B (f1 - C_od V1)", fn, None if ok else _show(D1))
-            else:
-                good_v = good_v and _eq(V1, rhs_v)
-                good_d = good_d and _eq(D1, rhs_d)
-        if ok == "partial":
-            if all(o.status == "ok" for o in ctx.obls[-2:]):
-                ctx.error(f"{tag}: evaluation", fn, why)
+        obj, sol = res
+        d, v = (sol.attrs.get(x) for x in "dv") if isinstance(sol, I.Obj) else (None, None)
+        steps = (d.shape[1] - 1) if isinstance(d, I.NDArr) and d.ndim == 2 else 0
+        if not (isinstance(d, I.NDArr) and isinstance(v, I.NDArr) and d.shape == v.shape and d.shape[0] == ntot and steps >= 1 and len(it.su_log) == 1):
+            ctx.fail(f"{tag}: tsolve returns d, v with one row per equation and one column per time step", where, _show(d))
             continue
+        c = it.su_log[0]["pc"].attrs
+        env = it.su_log[0]["env"]
+        bo = _offdiag_of(bk)
+        ok = _eq(env.get("b"), _diag_of(bk)) and _eq(env.get("m"), m[K_]) and _eq(env.get("k"), k[K_]) and I.s_equal(env.get("h"), H)
+        ctx.check(ok, f"{tag}: the integration coefficients are those of the diagonal part of the non-rf equations, get_su_coef(m, diag(b), k, h)", where)
+        dk, vk, fk = d[K_], v[K_], f[K_]
+        good_v = good_d = True
+        try:
+            for i in range(steps):
+                di, vi, V1, D1 = dk[:, i], vk[:, i], vk[:, i + 1], dk[:, i + 1]
+                f0 = fk[:, i]
+                f1 = fk[:, i + 1] if order == 1 else fk[:, i]
+                rhs_v = c["Fp"] * di + c["Gp"] * vi + c["Ap"] * (f0 - bo @ vi) + c["Bp"] * (f1 - bo @ V1)
+                rhs_d = c["F"] * di + c["G"] * vi + c["A"] * (f0 - bo @ vi) + c["B"] * (f1 - bo @ V1)
+                if i == 0:
+                    ok = _eq(V1, rhs_v) and _eq(vk[:, 0], v0[K_])
+                    ctx.check(ok, f"{tag}: the velocity update solves the documented implicit equation V1 = Fp d + Gp v + Ap (f0 - C_od v0) + "
+                                  "Bp (f1 - C_od V1), starting from the given v0", where, None if ok else _show(V1))
+                    ok = _eq(D1, rhs_d) and _eq(dk[:, 0], d0[K_])
+                    ctx.check(ok, f"{tag}: the displacement update is D1 = F d + G v + A (f0 - C_od v0) + B (f1 - C_od V1), starting from the given d0",
+                              where, None if ok else _show(D1))
+                else:
+                    good_v = good_v and _eq(V1, rhs_v)
+                    good_d = good_d and _eq(D1, rhs_d)
+        except I.TooLarge as e:
+            ctx.error(f"{tag}: evaluation", where, str(e))
+            continue
+        if steps < 2:
+            if all(o.status == "ok" for o in ctx.obls[-2:]):
+                ctx.error(f"{tag}: evaluation", where, "only one step could be decided within the formula budget")
+            continue
+        if rf:
+            good_d = good_d and all(_eq(d[RF_, j] * k[RF_], f[RF_, j]) for j in range(nt))
         ctx.check(good_v and good_d, f"{tag}: the next step starts from the stored displacement and velocity and the damping force carried over is C_od V1 "
-                                     "(the same equations hold for the second step)", fn)
+                                     "(the same equations hold for the second step)" + ("; the rf equation is solved statically" if rf else ""), where)
+
+
+_R6_TEXT = {
+    "nl0": "at j = 0 the nonlinear functions see u_0 in column 0 and u_-1 in the last column of the rows of the non-rf equations",
+    "z0": "sol.z[key] has one column per time step and column 0 is the function output at j = 0",
+    "u1": "the first step lands in the rows of the non-rf equations and uses their initial conditions, forces and matrices",
+    "a0": "the initial acceleration and velocity land in the rows of the non-rf equations",
+    "f0": "the second step uses the forces of the non-rf rows",
+    "rec": "every later step does",
+    "extra": "so does the extra step behind the last velocity",
+    "vel": "interior velocities are differences of the same rows",
+    "acc": "interior accelerations are differences of the same rows",
+    "last": "the last acceleration is a difference of the same rows",
+    "rf": "the rf row holds the static solution K_rf d_rf = F_rf of the rf equation",
+    "nlcalls": "the nonlinear functions see the displacements of the non-rf equations at every step",
+    "zrec": "their outputs are recorded per step",
+}
 
 
 def r6_typing(ctx):
+    """index spaces: full / non-rf / rf.  (a) on values: with the rf mode FIRST no partition starts at row 0, so a row taken with the wrong
+    partition (or with none) lands on another equation; (b) the shared index-space typer over every function of the file, whatever the
+    class calls its helpers (its findings are reported; its instance count depends on the spelling, the floor is carried by (a))"""
+    where, runs = _newmark_runs(ctx)
+    for key in _R6_KEYS:
+        r = runs.get(key)
+        if r is None:
+            continue
+        for name, text in _R6_TEXT.items():
+            if name in r.facts_:
+                _emit(ctx, r, name, text, where)
     U = O.mode_U()
     U.update({"self.A0": O.Arr("K", "K"), "self.A1": O.Arr("K", "K"), "self.Ad": O.Arr("K", "K")})
-    for q in ("SolveNewmark._newmark_precalcs", "SolveNewmark._init_dva", "SolveNewmark.tsolve"):
-        O.type_function(ctx, NM, q, U, "Newmark", rule="C17-R6")
+    for q in sorted(ctx.src.mod(NM).funcs):
+        # the typer reads the space of a parameter off its NAME (force, d0, v0 are full-size): that is a contract for the public methods (the
+        # names are part of the call interface) and for the two start-up methods that take the same arguments unchanged; a private helper is
+        # free to call a non-rf partition `d0`, so helpers are not typed (they are covered by the values of (a))
+        name = q.rsplit(".", 1)[-1]
+        if "#" in q or q.count(".") != 1 or not q.startswith("SolveNewmark.") or (name.startswith("_") and name not in ("__init__", "_init_dva", "_newmark_precalcs")):
+            continue
+        try:
+            O.type_function(ctx, NM, q, U, "Newmark", rule="C17-R6")
+        except (AnchorError, Unsupported) as e:
+            ctx.note(f"index-space typer: {q}: {e}")
 
 
 RULES = [
@@ -970,7 +1092,7 @@ RULES = [
     ("C17-R3", r3_differences, 9),
     ("C17-R4", r4_cdf_equals_unc_on_diagonal, 7),
     ("C17-R5", r5_implicit_update, 8),
-    ("C17-R6", r6_typing, 10),
+    ("C17-R6", r6_typing, 20),
 ]
 LEVEL = "other"
 EXPLANATION = ("Static: the source of SolveNewmark and of the damping-as-force path of SolveUnc is interpreted on a 2-dof, 5-step system with symbolic "
